@@ -686,6 +686,245 @@ pub proof fn lemma_redc_injective(a: int, b: int)
     lemma_small_mod(b as nat, P as nat);
 }
 
+// ---- inv: binary extended Euclid on the Montgomery word (partial correctness) -------------------------
+/// a * xn == v (mod P) and d * xn == -u (mod P), with explicit witnesses
+pub open spec fn inv_rel(xn: int, u: int, v: int, a: int, d: int, ka: int, kd: int) -> bool {
+    a * xn == v + ka * P && d * xn + u == kd * P
+}
+
+/// k * P == 2 * t with P odd  ==>  k even
+proof fn lemma_even_factor(k: int, t: int)
+    requires k * P == 2 * t
+    ensures k % 2 == 0
+{
+    lemma_consts();
+    let q = k / 2;
+    let r = k % 2;
+    assert(k == 2 * q + r);
+    assert(k * P == 2 * (q * P) + r * P) by (nonlinear_arith) requires k == 2 * q + r;
+    if r == 1 {
+        assert(P % 2 == 1) by (compute);
+        assert((2 * (q * P) + P) % 2 == 1);
+    }
+}
+
+/// halving step: 2 * h is the (evened) accumulator, 2 * w the even operand
+proof fn lemma_halve_d(xn: int, h: int, w: int, kd: int)
+    requires (2 * h) * xn + 2 * w == kd * P
+    ensures kd % 2 == 0, h * xn + w == (kd / 2) * P
+{
+    assert((2 * h) * xn + 2 * w == 2 * (h * xn + w)) by (nonlinear_arith);
+    lemma_even_factor(kd, h * xn + w);
+    let q = kd / 2;
+    assert(kd == 2 * q);
+    assert(kd * P == 2 * (q * P)) by (nonlinear_arith) requires kd == 2 * q;
+}
+
+proof fn lemma_halve_a(xn: int, h: int, w: int, ka: int)
+    requires (2 * h) * xn == 2 * w + ka * P
+    ensures ka % 2 == 0, h * xn == w + (ka / 2) * P
+{
+    assert((2 * h) * xn - 2 * w == 2 * (h * xn - w)) by (nonlinear_arith);
+    lemma_even_factor(ka, h * xn - w);
+    let q = ka / 2;
+    assert(ka == 2 * q);
+    assert(ka * P == 2 * (q * P)) by (nonlinear_arith) requires ka == 2 * q;
+}
+
+proof fn lemma_cong_mul(a: int, b: int, c: int, d: int)
+    requires a % P == b % P, c % P == d % P
+    ensures (a * c) % P == (b * d) % P
+{
+    lemma_mul_mod_noop_general(a, c, P);
+    lemma_mul_mod_noop_general(b, d, P);
+}
+
+/// (a c R^-1 R^-1)(xn R^-1) regrouped as (a xn)(c R^-3)
+proof fn lemma_regroup(a: int, c: int, xn: int, i: int)
+    ensures (((a * c) * i) * i) * (xn * i) == (a * xn) * (((c * i) * i) * i)
+{
+    let ac = a * c;
+    let i2 = i * i;
+    let i3 = i2 * i;
+    assert((ac * i) * i == ac * i2) by (nonlinear_arith) requires i2 == i * i;
+    assert((ac * i2) * (xn * i) == (ac * xn) * i3) by (nonlinear_arith) requires i3 == i2 * i;
+    assert(ac * xn == (a * xn) * c) by (nonlinear_arith) requires ac == a * c;
+    assert(((a * xn) * c) * i3 == (a * xn) * (c * i3)) by (nonlinear_arith);
+    assert((c * i) * i == c * i2) by (nonlinear_arith) requires i2 == i * i;
+    assert((c * i2) * i == c * i3) by (nonlinear_arith) requires i3 == i2 * i;
+}
+
+proof fn lemma_r3_rinv3()
+    ensures ((((R3 as int) * RINV) * RINV) * RINV) % P == 1
+{
+    lemma_consts();
+    assert((((((T64 * T64 * T64) % P) * RINV) * RINV) * RINV) % P == 1) by (compute);
+}
+
+/// from a * xn == 1 (mod P) and the Montgomery product r of a and R3 to the statement about residues
+proof fn lemma_inv_final(a: int, xn: int, x: int, r: int, ka: int)
+    requires a * xn == 1 + ka * P, xn == x % P, r % P == redc(a * (R3 as int)), 0 <= a, 0 <= x
+    ensures (redc(r) * redc(x)) % P == 1
+{
+    let c = R3 as int;
+    let bb = (a * c) * RINV;
+    let j = ((c * RINV) * RINV) * RINV;
+    let ax = a * xn;
+    assert(redc(r) == (bb * RINV) % P) by {
+        lemma_mod_twice(bb, P);
+        lemma_cong_mul(r, bb, RINV, RINV);
+    }
+    assert(redc(x) == (xn * RINV) % P) by {
+        lemma_mod_twice(x, P);
+        lemma_cong_mul(x, xn, RINV, RINV);
+    }
+    assert((redc(r) * redc(x)) % P == ((bb * RINV) * (xn * RINV)) % P) by {
+        lemma_mul_mod_noop_general(bb * RINV, xn * RINV, P);
+    }
+    assert((bb * RINV) * (xn * RINV) == ax * j) by { lemma_regroup(a, c, xn, RINV); }
+    assert(ax % P == 1) by {
+        lemma_consts();
+        lemma_mod_multiples_vanish(ka, 1, P);
+        assert(ka * P + 1 == ax);
+        lemma_small_mod(1, P as nat);
+    }
+    assert(j % P == 1) by { lemma_r3_rinv3(); }
+    assert((ax * j) % P == 1) by {
+        lemma_consts();
+        lemma_small_mod(1, P as nat);
+        lemma_cong_mul(ax, 1, j, 1);
+    }
+}
+
+//@@ source math/src/field/f62/mod.rs
+//@@ extract anchor="fn inv(x: u64) -> u64"
+//@@ before "let x = normalize(x);"
+//@@|    let ghost x0 = x as int;
+//@@ before "let mut a: u128 = 0;"
+//@@|    let ghost xn = x as int;
+//@@|    proof {
+//@@|        assert((x as u128) & 1 == 1 <==> (x as u128) % 2 == 1) by (bit_vector);
+//@@|        assert(x & 1 == 1 <==> (x as u128) & 1 == 1) by (bit_vector);
+//@@|    }
+//@@ before "while v != 1"
+//@@|    let ghost mut ka: int = -1;
+//@@|    let ghost mut kd: int = if xn % 2 == 1 { xn } else { xn + 1 };
+//@@|    let ghost mut k: int = 0;
+//@@|    proof {
+//@@|        assert(forall|t: u128| #[trigger] (t & 1) == t % 2) by (bit_vector);
+//@@|        assert(forall|t: u128| #[trigger] (t >> 1) == t / 2) by (bit_vector);
+//@@|        assert(0 * xn == P + (-1) * P) by (nonlinear_arith);
+//@@|        assert((P - 1) * xn + xn == xn * P) by (nonlinear_arith);
+//@@|        assert((P - 1) * xn + (xn + P) == (xn + 1) * P) by (nonlinear_arith);
+//@@|    }
+//@@ loop 1
+//@@|        invariant
+//@@|            forall|t: u128| #[trigger] (t & 1) == t % 2, forall|t: u128| #[trigger] (t >> 1) == t / 2,
+//@@|            0 < xn < P, u % 2 == 1, v % 2 == 1, 1 <= u, 1 <= v, 0 <= k, k + u + v <= 0x1_0000_0000_0000_0000int,
+//@@|            inv_rel(xn, u as int, v as int, a as int, d as int, ka, kd),
+//@@|            a <= (k + 1) * 4611624995532046337, d <= (k + 1) * 4611624995532046337,
+//@@ loop 2
+//@@|            invariant
+//@@|                forall|t: u128| #[trigger] (t & 1) == t % 2, forall|t: u128| #[trigger] (t >> 1) == t / 2,
+//@@|                0 < xn < P, u % 2 == 1, v % 2 == 1, 1 <= u, 1 <= v, 0 <= k, k + u + v <= 0x1_0000_0000_0000_0000int,
+//@@|                inv_rel(xn, u as int, v as int, a as int, d as int, ka, kd),
+//@@|                a <= (k + 1) * 4611624995532046337, d <= (k + 1) * 4611624995532046337,
+//@@ after "d += a;"
+//@@|            proof {
+//@@|                let (uo, vo, ao, dold) = ((u + v) as int, v as int, a as int, (d - a) as int);
+//@@|                assert((dold + ao) * xn + (uo - vo) == (kd + ka) * P) by (nonlinear_arith)
+//@@|                    requires ao * xn == vo + ka * P, dold * xn + uo == kd * P;
+//@@|                kd = kd + ka;
+//@@|                k = k + 1;
+//@@|            }
+//@@ loop 3
+//@@|                invariant
+//@@|                    forall|t: u128| #[trigger] (t & 1) == t % 2, forall|t: u128| #[trigger] (t >> 1) == t / 2,
+//@@|                    0 < xn < P, v % 2 == 1, 1 <= u, 1 <= v, 1 <= k, k + u + v <= 0x1_0000_0000_0000_0000int,
+//@@|                    inv_rel(xn, u as int, v as int, a as int, d as int, ka, kd),
+//@@|                    a <= k * 4611624995532046337,
+//@@|                    (u % 2 == 0 && d <= 2 * k * 4611624995532046337) || d <= (k + 1) * 4611624995532046337,
+//@@ after "d += M as u128;"
+//@@|                    proof {
+//@@|                        let dold = (d - M as u128) as int;
+//@@|                        assert((dold + P) * xn + (u as int) == (kd + xn) * P) by (nonlinear_arith)
+//@@|                            requires dold * xn + (u as int) == kd * P;
+//@@|                        kd = kd + xn;
+//@@|                    }
+//@@ before "u >>= 1;"
+//@@|                let ghost (u2, d2) = (u, d);
+//@@ after "d >>= 1;"
+//@@|                proof {
+//@@|                    assert(d2 % 2 == 0 && u2 % 2 == 0);
+//@@|                    assert((2 * (d as int)) * xn + 2 * (u as int) == kd * P);
+//@@|                    lemma_halve_d(xn, d as int, u as int, kd);
+//@@|                    kd = kd / 2;
+//@@|                }
+//@@ after "a += d;"
+//@@|        proof {
+//@@|            let (uo, vo, aold, dd) = (u as int, (v + u) as int, (a - d) as int, d as int);
+//@@|            assert((aold + dd) * xn == (vo - uo) + (ka + kd) * P) by (nonlinear_arith)
+//@@|                requires aold * xn == vo + ka * P, dd * xn + uo == kd * P;
+//@@|            ka = ka + kd;
+//@@|            k = k + 1;
+//@@|        }
+//@@ loop 4
+//@@|            invariant
+//@@|                forall|t: u128| #[trigger] (t & 1) == t % 2, forall|t: u128| #[trigger] (t >> 1) == t / 2,
+//@@|                0 < xn < P, u % 2 == 1, 1 <= u, 1 <= k, k + u + v <= 0x1_0000_0000_0000_0000int,
+//@@|                inv_rel(xn, u as int, v as int, a as int, d as int, ka, kd),
+//@@|                d <= k * 4611624995532046337,
+//@@|                (v % 2 == 0 && a <= 2 * k * 4611624995532046337) || a <= (k + 1) * 4611624995532046337,
+//@@ after "a += M as u128;"
+//@@|                proof {
+//@@|                    let aold = (a - M as u128) as int;
+//@@|                    assert((aold + P) * xn == (v as int) + (ka + xn) * P) by (nonlinear_arith)
+//@@|                        requires aold * xn == (v as int) + ka * P;
+//@@|                    ka = ka + xn;
+//@@|                }
+//@@ before "v >>= 1;"
+//@@|            let ghost (v2, a2) = (v, a);
+//@@ after "a >>= 1;"
+//@@|            proof {
+//@@|                assert(a2 % 2 == 0 && v2 % 2 == 0);
+//@@|                assert((2 * (a as int)) * xn == 2 * (v as int) + ka * P);
+//@@|                lemma_halve_a(xn, a as int, v as int, ka);
+//@@|                ka = ka / 2;
+//@@|            }
+//@@ loop? 5
+//@@|        invariant 0 < xn < P, (a as int) * xn == 1 + ka * P,
+//@@ after "a -= M as u128;"
+//@@|        proof {
+//@@|            let aold = (a + M as u128) as int;
+//@@|            assert((aold - P) * xn == 1 + (ka - xn) * P) by (nonlinear_arith) requires aold * xn == 1 + ka * P;
+//@@|            ka = ka - xn;
+//@@|        }
+//@@ before "mul(a as u64,"
+//@@|    proof {
+//@@|        let ai = a as int;
+//@@|        assert forall|kk: int| 0 <= kk < T64 implies #[trigger] (ai * kk) < P * T64 by {
+//@@|            assert(ai * kk < P * T64) by (nonlinear_arith) requires 0 <= ai <= P, 0 <= kk < T64, P > 0;
+//@@|        }
+//@@|        assert(ai * (R3 as int) < P * T64);
+//@@|        lemma_mul_raw(a as int, R3 as int);
+//@@|        lemma_inv_final(a as int, xn, x0, mul_raw(a as int, R3 as int), ka);
+//@@|    }
+/// C07 for the 62-bit field: inv(0) == 0 (both representatives of zero) and otherwise x * inv(x) == 1 as
+/// residues. Partial correctness: termination of the Euclid loops (it needs gcd(x, P) == 1) is not proved.
+#[verifier::exec_allows_no_decreases_clause]
+pub fn inv(x: u64) -> (r: u64)
+    requires (x as int) < 2 * P
+    ensures (r as int) < 2 * P,
+        (x as int) % P == 0 ==> r == 0,
+        (x as int) % P != 0 ==> (redc(r as int) * redc(x as int)) % P == 1,
+{
+    hide(mul_raw);
+    hide(mul_q);
+    hide(redc);
+    proof { lemma_consts(); }
+    /*@@body*/
+}
+
 proof fn f62_canary_must_fail()
     ensures redc(5) == 5
 {
